@@ -787,6 +787,10 @@ func (server *SugarDB) getObjectFreq(ctx context.Context, key string) (int, erro
 	var freq int
 	var err error
 	if server.lfuCache.cache != nil {
+		if server.lfuCache.cache[database] == nil {
+			// The database has never been written to: it holds no key.
+			return -1, fmt.Errorf("Key: %s does not exist.", key)
+		}
 		server.lfuCache.cache[database].Mutex.Lock()
 		freq, err = server.lfuCache.cache[database].GetCount(key)
 		server.lfuCache.cache[database].Mutex.Unlock()
@@ -807,6 +811,10 @@ func (server *SugarDB) getObjectIdleTime(ctx context.Context, key string) (float
 	var accessTime int64
 	var err error
 	if server.lruCache.cache != nil {
+		if server.lruCache.cache[database] == nil {
+			// The database has never been written to: it holds no key.
+			return -1, fmt.Errorf("Error: key %s does not exist.", key)
+		}
 		server.lruCache.cache[database].Mutex.Lock()
 		accessTime, err = server.lruCache.cache[database].GetTime(key)
 		server.lruCache.cache[database].Mutex.Unlock()
